@@ -19,6 +19,11 @@ Theorem C16_statement_positions : forall input ss o,
   Parse input = (ss, [], o) -> Forall (stmt_ok (terminated input)) ss.
 Proof. exact Parse_statement_positions. Qed.
 
+(* T1 is not vacuous: no statement of an accepted forest, at any depth, is the error-recovery placeholder
+   (every keyword is a non-empty unquoted token), so the position clause of [stmt_ok] applies to all *)
+Theorem C16_statements_real : forall input ss o, Parse input = (ss, [], o) -> Forall stmt_real ss.
+Proof. exact Parse_statements_real. Qed.
+
 (* T2: every message of a rejected text that is about a particular place — the unexpected closing brace, the token
    standing where a semicolon or opening brace must, the token standing where a keyword must, the backslash of an invalid
    escape, the opening single quote, double quote or comment opener that is never closed — prints a line:column, and it is the true position
